@@ -6,7 +6,7 @@ equalities and order comparisons, max/min under the type's own Ord, calls to
 sibling methods).  It is used to read *complete* tables (4, 9, 16 .. rows)
 out of the syntax tree; any construct outside the subset raises Unsupported
 and the calling rule fails closed."""
-from astlib import all_items, is_node, last, render
+from astlib import all_items, is_node, last, render, walk
 import facts
 
 
@@ -25,6 +25,27 @@ def E(ty, variant):
 
 def S(ty, *fields):
     return ("S", ty, tuple(fields))
+
+
+class Iter:
+    """a by-reference iterator over a list value: `next()` consumes, loops / folds take what is left"""
+
+    def __init__(self, items):
+        self.items = list(items)
+        self.pos = 0
+
+    def rest(self):
+        r = self.items[self.pos:]
+        self.pos = len(self.items)
+        return r
+
+
+class BreakEx(Exception):
+    pass
+
+
+class ContinueEx(Exception):
+    pass
 
 
 NONE = ("E", "Option", "None")
@@ -125,6 +146,16 @@ class World:
         return self.call_fn(fn, [recv] + list(args))
 
     def call_fn(self, fn, args):
+        if not hasattr(self, "_owner"):
+            self._owner = {id(v[0]): k[0] for k, v in self.methods.items()}
+            self._ty_stack = []
+        self._ty_stack.append(self._owner.get(id(fn)))
+        try:
+            return self._call_fn(fn, args)
+        finally:
+            self._ty_stack.pop()
+
+    def _call_fn(self, fn, args):
         self.depth += 1
         if self.depth > 40:
             raise Unsupported("recursion")
@@ -215,35 +246,49 @@ class World:
             return v
         raise Unsupported("non-boolean condition %r" % (v,))
 
+    def _block(self, e, env, uses, declared):
+        val = ("T", ())
+        for s in e["stmts"]:
+            if s["k"] == "ItemStmt":
+                it = s["item"]
+                if it["k"] == "Use":
+                    for u in it["uses"]:
+                        if u["name"] == "*":
+                            uses.append(last(u["path"]))
+                        elif last(u["path"]) in ("Ordering",):
+                            pass
+                continue
+            if s["k"] == "Local":
+                if s["init"] is None:
+                    raise Unsupported("let without init")
+                v = self.eval(s["init"], env, uses)
+                for b_ in walk(s["pat"]):
+                    if b_["k"] == "PIdent":
+                        declared.add(b_["name"])
+                if not self.bind(s["pat"], v, env, uses):
+                    if s["else"] is None:
+                        raise Unsupported("refutable let")
+                    self.eval(s["else"], env, uses)
+                continue
+            if s["k"] == "ExprStmt":
+                v = self.eval(s["e"], env, uses)
+                val = ("T", ()) if s["semi"] else v
+        return val
+
     def eval(self, e, env, uses):
         k = e["k"]
         if k == "Block":
             uses = list(uses)
+            outer = env
             env = dict(env)
-            val = ("T", ())
-            for s in e["stmts"]:
-                if s["k"] == "ItemStmt":
-                    it = s["item"]
-                    if it["k"] == "Use":
-                        for u in it["uses"]:
-                            if u["name"] == "*":
-                                uses.append(last(u["path"]))
-                            elif last(u["path"]) in ("Ordering",):
-                                pass
-                    continue
-                if s["k"] == "Local":
-                    if s["init"] is None:
-                        raise Unsupported("let without init")
-                    v = self.eval(s["init"], env, uses)
-                    if not self.bind(s["pat"], v, env, uses):
-                        if s["else"] is None:
-                            raise Unsupported("refutable let")
-                        self.eval(s["else"], env, uses)
-                    continue
-                if s["k"] == "ExprStmt":
-                    v = self.eval(s["e"], env, uses)
-                    val = ("T", ()) if s["semi"] else v
-            return val
+            declared = set()
+            try:
+                return self._block(e, env, uses, declared)
+            finally:
+                # assignments to variables of enclosing scopes persist; names declared here do not leak
+                for k_ in list(outer.keys()):
+                    if k_ not in declared and k_ in env:
+                        outer[k_] = env[k_]
         if k == "Lit":
             return self.lit(e)
         if k == "Path":
@@ -288,7 +333,13 @@ class World:
                 v = self.eval(c["e"], env, uses)
                 env2 = dict(env)
                 if self.bind(c["pat"], v, env2, uses):
-                    return self.eval(e["then"], env2, uses)
+                    bound = {b_["name"] for b_ in walk(c["pat"]) if b_["k"] == "PIdent"}
+                    try:
+                        return self.eval(e["then"], env2, uses)
+                    finally:
+                        for k_ in env:
+                            if k_ not in bound and k_ in env2:
+                                env[k_] = env2[k_]
                 if e["else"] is None:
                     return ("T", ())
                 return self.eval(e["else"], env, uses)
@@ -304,8 +355,51 @@ class World:
                 if self.bind(a["pat"], v, env2, uses):
                     if a["guard"] is not None and not self.truth(self.eval(a["guard"], env2, uses)):
                         continue
-                    return self.eval(a["body"], env2, uses)
+                    bound = {b_["name"] for b_ in walk(a["pat"]) if b_["k"] == "PIdent"}
+                    try:
+                        return self.eval(a["body"], env2, uses)
+                    finally:
+                        for k_ in env:
+                            if k_ not in bound and k_ in env2:
+                                env[k_] = env2[k_]
             raise Unsupported("no arm matches %r" % (v,))
+        if k == "Assign":
+            l = e["l"]
+            while l["k"] in ("Paren",) or (l["k"] == "Unary" and l["op"] == "*"):
+                l = l["e"]
+            if l["k"] != "Path" or l["path"] not in env:
+                raise Unsupported("assignment to " + render(e["l"])[:40])
+            env[l["path"]] = self.eval(e["r"], env, uses)
+            return ("T", ())
+        if k == "For":
+            it = self.eval(e["iter"], env, uses)
+            items = it.rest() if isinstance(it, Iter) else (list(it[1]) if isinstance(it, tuple) and it and it[0] == "L" else None)
+            if items is None:
+                raise Unsupported("for over %r" % (it,))
+            for x in items:
+                env2 = dict(env)
+                if not self.bind(e["pat"], x, env2, uses):
+                    raise Unsupported("refutable loop pattern")
+                bound = {b_["name"] for b_ in walk(e["pat"]) if b_["k"] == "PIdent"}
+                try:
+                    self.eval(e["body"], env2, uses)
+                except ContinueEx:
+                    pass
+                except BreakEx:
+                    for k_ in env:
+                        if k_ not in bound and k_ in env2:
+                            env[k_] = env2[k_]
+                    break
+                for k_ in env:
+                    if k_ not in bound and k_ in env2:
+                        env[k_] = env2[k_]
+            return ("T", ())
+        if k == "Break":
+            raise BreakEx()
+        if k == "Continue":
+            raise ContinueEx()
+        if k == "Array":
+            return ("L", tuple(self.eval(x, env, uses) for x in e["elems"]))
         if k == "Return":
             raise ReturnEx(self.eval(e["e"], env, uses) if e["e"] else ("T", ()))
         if k == "Macro":
@@ -318,6 +412,8 @@ class World:
                         return self.truth(self.eval(e["guard"], env2, uses))
                     return True
                 return False
+            if name == "vec" and e.get("parsed"):
+                return ("L", tuple(self.eval(x, env, uses) for x in e["args"]))
             if name in ("panic", "unreachable"):
                 raise Unsupported("panic reached")
             if name in ("trace", "debug"):
@@ -357,6 +453,10 @@ class World:
                 if len(recv) > 2 and m in dict(recv[2]):
                     return dict(recv[2])[m]
                 return ("O", "%s.%s" % (recv[1], m))
+            self._turbofish = str(e.get("turbofish") or "")
+            lm = self.list_method(recv, m, args, uses)
+            if lm is not NotImplemented:
+                return lm
             opt = self.option_method(recv, m, args, uses)
             if opt is not NotImplemented:
                 return opt
@@ -426,6 +526,58 @@ class World:
                 return r.v
         raise Unsupported("call of a non-closure")
 
+    def list_method(self, recv, m, args, uses):
+        """lists ("L", items) and by-reference iterators over them"""
+        is_list = isinstance(recv, tuple) and recv and recv[0] == "L"
+        if not (is_list or isinstance(recv, Iter)):
+            return NotImplemented
+        if m in ("iter", "into_iter", "iter_mut") and not args:
+            return Iter(recv[1]) if is_list else recv
+        if m in ("cloned", "copied", "by_ref", "peekable") and not args:
+            return recv
+        if m == "len" and not args and is_list:
+            return len(recv[1])
+        if m == "is_empty" and not args and is_list:
+            return len(recv[1]) == 0
+        it = recv if isinstance(recv, Iter) else Iter(recv[1])
+        if m == "next" and not args:
+            if it.pos < len(it.items):
+                it.pos += 1
+                return S("Some", it.items[it.pos - 1])
+            return NONE
+        if m == "fold" and len(args) == 2:
+            acc = args[0]
+            for x in it.rest():
+                acc = self.apply(args[1], [acc, x], uses)
+            return acc
+        if m == "reduce" and len(args) == 1:
+            r = it.rest()
+            if not r:
+                return NONE
+            acc = r[0]
+            for x in r[1:]:
+                acc = self.apply(args[0], [acc, x], uses)
+            return S("Some", acc)
+        if m == "map" and len(args) == 1:
+            return Iter([self.apply(args[0], [x], uses) for x in it.rest()])
+        if m == "filter" and len(args) == 1:
+            return Iter([x for x in it.rest() if self.truth(self.apply(args[0], [x], uses))])
+        if m in ("all", "any") and len(args) == 1:
+            vals = [self.truth(self.apply(args[0], [x], uses)) for x in it.rest()]
+            return all(vals) if m == "all" else any(vals)
+        if m == "collect" and not args:
+            r = it.rest()
+            # collect::<Option<Vec<_>>>() over options: None if any is None
+            if "Option" in getattr(self, "_turbofish", "") or (r and all(x == NONE or (isinstance(x, tuple) and x[0] == "S" and x[1] == "Some") for x in r)):
+                if any(x == NONE for x in r):
+                    return NONE
+                return S("Some", ("L", tuple(x[2][0] for x in r)))
+            return ("L", tuple(r))
+        if m == "last" and not args:
+            r = it.rest()
+            return S("Some", r[-1]) if r else NONE
+        return NotImplemented
+
     def option_method(self, recv, m, args, uses):
         """Option combinators on evaluated values (closures are values)"""
         is_some = isinstance(recv, tuple) and recv[0] == "S" and recv[1] == "Some"
@@ -471,5 +623,8 @@ class World:
     def self_type(self, env):
         t = self.type_of(env.get("self"))
         if t is None:
+            for x in reversed(getattr(self, "_ty_stack", [])):
+                if x:
+                    return x  # associated function: the type of the impl it is defined in
             raise Unsupported("Self without receiver")
         return t
